@@ -124,7 +124,7 @@ func ParseWriteMultipleCoilsRequestTCP(data []byte) (*WriteMultipleCoilsRequestT
 	var coilsData []byte
 	if coilsBytesCount > 0 {
 		coilsData = make([]byte, coilsBytesCount)
-		copy(coilsData, data[13:13+coilsBytesCount])
+		copy(coilsData, data[13:13+int(coilsBytesCount)])
 	}
 	return &WriteMultipleCoilsRequestTCP{
 		MBAPHeader: header,
@@ -206,7 +206,7 @@ func ParseWriteMultipleCoilsRequestRTU(data []byte) (*WriteMultipleCoilsRequestR
 	var coilsData []byte
 	if coilsBytesCount > 0 {
 		coilsData = make([]byte, coilsBytesCount)
-		copy(coilsData, data[7:7+coilsBytesCount])
+		copy(coilsData, data[7:7+int(coilsBytesCount)])
 	}
 	return &WriteMultipleCoilsRequestRTU{
 		WriteMultipleCoilsRequest: WriteMultipleCoilsRequest{
